@@ -64,6 +64,10 @@ def search(rep: C.Report, tier: str, broken):
         e_ = models.BagEOS(ap=3.0, am=3.0 * psi_, eps=1.0 - psi_, Tn=Tn_)
         if float(e_.alpha(Tn_)) > 0.45:
             fams.append((f"bag-strongly-supercooled:psi={psi_!r},Tn/Tc={Tn_!r},alpha={float(e_.alpha(Tn_)):.3f}", e_))
+    # temperature-dependent sound speed in the HIGH-T phase, nucleation temperatures a few per cent on the non-runaway side of the runaway
+    # threshold (Tn ~ 0.739 for these parameters): the LTE root is a hybrid 2-5 % below vJ, where cs+^2(T+) differs from cs+^2(Tn)
+    for Tn_ in ((0.77, 0.78, 0.80) if tier == "quick" else (0.73, 0.745, 0.75, 0.76, 0.77, 0.78, 0.79, 0.80, 0.83, 0.86)):
+        fams.append((f"soft-highT-sound-speed:c=0.7,Ts=0.8,amp=0.62,cb2=0.22,Tn/Tc={Tn_}", models.SoftEOS(Tn=Tn_)))
     _manager_scan(rep, tier)
     for name, th in fams:
         try:
@@ -119,6 +123,8 @@ def search(rep: C.Report, tier: str, broken):
             if cls == "runaway" and fin and any(s < -1e-6 * Tn for s in fin) and all(math.isfinite(s) for s in signs):
                 # a sign change inside the window means a root exists: runaway sentinel is wrong (outside the margin)
                 idx = [i for i, s in enumerate(signs) if s < 0]
-                if idx and 0 < idx[0] < len(grid) - 1:
+                # the grid ends 2 % below the top of the window (the stated margin): a negative mismatch at ANY of its points, after positive ones,
+                # means an LTE root exists at least that far inside the window
+                if idx and 0 < idx[0]:
                     rep.violation("runaway sentinel returned although the entropy mismatch changes sign inside the window",
                                   info, finding_key="C05:runaway")
